@@ -18,9 +18,26 @@ func NewStructAccessor(object interface{}) *StructAccessor {
 	}
 }
 
+// field returns the struct field with the given name, including fields promoted
+// from embedded structs. Unlike reflect's FieldByName it does not panic if the
+// field is promoted through an embedded pointer to a struct that is nil: such a
+// field does not exist on this object (it is also absent from the JSON form of
+// the object), so the zero Value is returned, as for an unknown name.
+func (sa *StructAccessor) field(key string) reflect.Value {
+	structField, ok := sa.object.Type().FieldByName(key)
+	if !ok {
+		return reflect.Value{}
+	}
+	field, err := sa.object.FieldByIndexErr(structField.Index)
+	if err != nil {
+		return reflect.Value{}
+	}
+	return field
+}
+
 // Set sets the value identified by key.
 func (sa *StructAccessor) Set(key string, value interface{}) error {
-	field := sa.object.FieldByName(key)
+	field := sa.field(key)
 	if !field.IsValid() {
 		return errors.New("struct field does not exist")
 	}
@@ -91,7 +108,7 @@ func (sa *StructAccessor) Set(key string, value interface{}) error {
 
 // Get returns the value found by the given json key and whether it could be successfully extracted.
 func (sa *StructAccessor) Get(key string) (value interface{}, ok bool) {
-	field := sa.object.FieldByName(key)
+	field := sa.field(key)
 	if !field.IsValid() || !field.CanInterface() {
 		return nil, false
 	}
@@ -100,7 +117,7 @@ func (sa *StructAccessor) Get(key string) (value interface{}, ok bool) {
 
 // GetString returns the string found by the given json key and whether it could be successfully extracted.
 func (sa *StructAccessor) GetString(key string) (value string, ok bool) {
-	field := sa.object.FieldByName(key)
+	field := sa.field(key)
 	if !field.IsValid() || field.Kind() != reflect.String {
 		return "", false
 	}
@@ -109,7 +126,7 @@ func (sa *StructAccessor) GetString(key string) (value string, ok bool) {
 
 // GetStringArray returns the []string found by the given json key and whether it could be successfully extracted.
 func (sa *StructAccessor) GetStringArray(key string) (value []string, ok bool) {
-	field := sa.object.FieldByName(key)
+	field := sa.field(key)
 	if !field.IsValid() || field.Kind() != reflect.Slice || !field.CanInterface() {
 		return nil, false
 	}
@@ -123,7 +140,7 @@ func (sa *StructAccessor) GetStringArray(key string) (value []string, ok bool) {
 
 // GetInt returns the int found by the given json key and whether it could be successfully extracted.
 func (sa *StructAccessor) GetInt(key string) (value int64, ok bool) {
-	field := sa.object.FieldByName(key)
+	field := sa.field(key)
 	if !field.IsValid() {
 		return 0, false
 	}
@@ -139,7 +156,7 @@ func (sa *StructAccessor) GetInt(key string) (value int64, ok bool) {
 
 // GetFloat returns the float found by the given json key and whether it could be successfully extracted.
 func (sa *StructAccessor) GetFloat(key string) (value float64, ok bool) {
-	field := sa.object.FieldByName(key)
+	field := sa.field(key)
 	if !field.IsValid() {
 		return 0, false
 	}
@@ -153,7 +170,7 @@ func (sa *StructAccessor) GetFloat(key string) (value float64, ok bool) {
 
 // GetBool returns the bool found by the given json key and whether it could be successfully extracted.
 func (sa *StructAccessor) GetBool(key string) (value bool, ok bool) {
-	field := sa.object.FieldByName(key)
+	field := sa.field(key)
 	if !field.IsValid() || field.Kind() != reflect.Bool {
 		return false, false
 	}
@@ -162,7 +179,7 @@ func (sa *StructAccessor) GetBool(key string) (value bool, ok bool) {
 
 // Exists returns the whether the given key exists.
 func (sa *StructAccessor) Exists(key string) bool {
-	field := sa.object.FieldByName(key)
+	field := sa.field(key)
 	return field.IsValid()
 }
 
